@@ -18,18 +18,10 @@ theorem C06_parse_roundtrip (v : Verb) (vt p tail rest : List Char) (quoted : Bo
     (hne : p ≠ []) (hq : noQuote p) (hnl : ∀ c ∈ p, c ≠ '\n')
     (htrim : quoted = false → trimSpace p = p) :
     parsePath (renderReq vt quoted p tail ++ '\n' :: rest) = .ok ⟨v, p, placeholders p⟩ := by
-  have hline : ∀ c ∈ renderReq vt quoted p tail, c ≠ '\n' := by
+  have hcontent : ∀ c ∈ (if quoted then '"' :: (p ++ ['"']) else p) ++ [')'] ++ tail, c ≠ '\n' := by
     intro c hc
-    simp only [renderReq, List.mem_append, List.mem_singleton] at hc
-    rcases hc with ((((hc | hc) | hc) | hc) | hc) | hc
-    · rcases hc with hc | hc
-      · simp only [shootColon, List.mem_cons, List.not_mem_nil, or_false] at hc
-        rcases hc with h | h | h | h | h | h <;> subst h <;> decide
-      · subst hc; decide
-    · intro e; subst e
-      have := hal _ hc
-      simp [isAlpha] at this
-    · subst hc; decide
+    simp only [List.mem_append, List.mem_singleton] at hc
+    rcases hc with (hc | hc) | hc
     · cases quoted with
       | false => exact hnl c (by simpa using hc)
       | true =>
@@ -41,11 +33,12 @@ theorem C06_parse_roundtrip (v : Verb) (vt p tail rest : List Char) (quoted : Bo
     · subst hc; decide
     · exact (htail c hc).2.2
   unfold parsePath
-  rw [splitLines_line _ _ hline]
-  have hm : matchReqLine (renderReq vt quoted p tail)
-      = some (v, if quoted then '"' :: (p ++ ['"']) else p) :=
-    matchReqLine_render v vt _ tail hsp hal (fun c hc => ⟨(htail c hc).1, (htail c hc).2.1⟩)
-  simp only [firstSome, hm]
+  have hm : matchReqAt (renderReq vt quoted p tail ++ '\n' :: rest)
+      = some (v, if quoted then '"' :: (p ++ ['"']) else p) := by
+    unfold renderReq
+    exact matchReqAt_render v vt _ tail rest hsp hal (fun c hc => ⟨(htail c hc).1, (htail c hc).2.1⟩) hcontent
+  rw [firstAtLineStart_here _ _ _ hm]
+  simp only
   cases quoted with
   | true =>
     simp only [↓reduceIte, trimSpace_quoted, pathFormatOk_quoted p hne hq, trimQuotes_quoted p hne hq]
@@ -86,6 +79,11 @@ theorem C06_cook_of_parse (md : Method) (m : MethodSpec)
     (ha : aliasMapOf md.doc = m.alias) (hps : md.params = m.params) :
     cookMethod md = cookParsed ⟨m.verb, m.path, placeholders m.path⟩ m.alias m.params := by
   simp [cookMethod, hp, ha, hps]
+
+/-- two parameters with the same alias: the method is rejected (Fatal), whatever else it contains -/
+theorem C06_dup_alias_rejected (d : PathDir) (asMap : List (String × String)) (params : List Param)
+    (h : ¬ (asMap.map (·.2)).Nodup) : cookParsed d asMap params = .fatal := by
+  simp [cookParsed, h]
 
 /-- the whole property for one call: exactly one request, and it is the one the directive describes -/
 theorem C06_request (hs : List (String × String)) (m : MethodSpec)
@@ -166,11 +164,11 @@ theorem C06_one_request (pl : Plan) (args : Args) :
 theorem C06_wf_methodOK (i : IfaceSpec) (calls : List Call) (h : region i calls = "WF")
     (m : MethodSpec) (hm : m ∈ i.methods) : MethodOK m := by
   obtain ⟨hs, _, htwo, hqual, _, _⟩ := region_wf i calls h
-  simp only [structOk, Bool.and_eq_true, List.all_eq_true] at hs
-  have hmo := hs.1.1 m hm
-  simp only [methodStructOk, Bool.and_eq_true, distinct, decide_eq_true_eq, List.all_eq_true,
+  simp only [structOk, shapeOk, Bool.and_eq_true, List.all_eq_true] at hs
+  have hmo := hs.1.1.1 m hm
+  simp only [methodShapeOk, Bool.and_eq_true, distinct, decide_eq_true_eq, List.all_eq_true,
     Bool.not_eq_true', bne_iff_ne, ne_eq] at hmo
-  obtain ⟨⟨⟨⟨⟨⟨⟨⟨⟨⟨⟨hnames, hctx⟩, _⟩, _⟩, hak⟩, _⟩, _⟩, hav⟩, hclean⟩, hph⟩, hfields⟩, hqb⟩ := hmo
+  obtain ⟨⟨⟨⟨⟨⟨⟨⟨⟨⟨hnames, hctx⟩, _⟩, _⟩, hak⟩, _⟩, hav⟩, hclean⟩, hph⟩, hfields⟩, hqb⟩ := hmo
   refine ⟨hnames, hctx, hak, ?_, ?_, ?_, ?_, ?_, ?_, ?_⟩
   · intro kv hkv; simpa using hav kv hkv
   · -- pathClean gives token cleanliness
